@@ -10,6 +10,7 @@ import KmipModel.Accept
 import KmipModel.Shutdown
 import KmipModel.Client
 import KmipModel.Stream
+import KmipModel.Io
 /-
   kvdriver: one request per input line, one reply per output line.  Runs the executable model and the
   executable specifications on the inputs the Go harness also gives to the real code.
@@ -224,6 +225,26 @@ def step (line : String) : String :=
       let fin := match e with | none => "more" | some .eof => "eof" | some .other => "err"
       s!"ok {d.win.length} {fin} " ++ " ; ".intercalate shown
     | _, _ => "bad-op"
+  -- io rf|lim FIN EAGER N K C1;C2;…: Go's io.ReadFull (directly / through io.LimitReader(src, N)) asking for K bytes from a source
+  -- that hands out the chunks C1, C2, … one per Read; reply: bytes read and the bytes a subsequent read-to-the-end returns
+  | ["io", kind, fin, eager, n, k, chunks] =>
+    let hx := fun (b : Bytes) => if b.isEmpty then "-" else toHex b
+    match (if fin = "eof" then some Fin.eof else if fin = "ioerr" then some Fin.ioerr else none), n.toNat?, k.toNat?,
+        (if chunks = "." then some [] else (chunks.splitOn ";").mapM fromHex) with
+    | some f, some n, some k, some cs =>
+      let src : Io.Src := ⟨cs, f, eager = "1"⟩
+      let err := fun (e : ErrClass) => match e with | .eof => "err eof" | .other => "err other"
+      if kind = "rf" then
+        match src.readFull k with
+        | .ok (b, s') => s!"ok {hx b} {hx s'.flat}"
+        | .err e => err e
+        | .panic _ => "panic"
+      else
+        match (Io.Lim.mk src n).readFull k with
+        | .ok (b, l') => s!"ok {hx b} {hx (l'.src.flat.take l'.n)}"
+        | .err e => err e
+        | .panic _ => "panic"
+    | _, _, _, _ => "bad-op"
   | ["c18"] => c18Report
   | ["c19"] => c19Report
   | _ => "bad-op"
